@@ -5,6 +5,8 @@
 ; The prelude consistency check run by every check (engine#prelude-consistent) guards against this.
 ; decimal rendering of an integer: abstract, with the facts the proofs need
 (declare-fun itoa (Int) Str)
+; strconv.Itoa(0) is "0"
+(assert (= (itoa 0) (mk-str 1 (store ((as const (Array Int Int)) 0) 0 48))))
 (assert (forall ((n Int)) (! (and (>= (slen (itoa n)) 1) (<= (slen (itoa n)) 20)) :pattern ((itoa n)))))
 (assert (forall ((n Int) (i Int)) (! (and (<= 0 (select (sarr (itoa n)) i)) (<= (select (sarr (itoa n)) i) 255) (=> (or (< i 0) (>= i (slen (itoa n)))) (= (select (sarr (itoa n)) i) 0))) :pattern ((select (sarr (itoa n)) i)))))
 (declare-fun str_upper (Str) Str)
@@ -43,6 +45,8 @@
 (declare-fun split_piece (Str Int Int) Str)
 (assert (forall ((s Str) (c Int)) (! (>= (split_count s c) 1) :pattern ((split_count s c)))))
 (assert (forall ((s Str) (c Int)) (! (=> (= (slen s) 0) (= (split_count s c) 1)) :pattern ((split_count s c)))))
+; one piece more than there are separators
+(assert (forall ((s Str) (c Int)) (! (=> (>= (slen s) 0) (<= (split_count s c) (+ (slen s) 1))) :pattern ((split_count s c)))))
 ; wit(s): always true; written inside an existential over strings so that the witness of one instance is
 ; a ground term the solver can try for another (a trigger that does not depend on any heap version)
 (declare-fun wit (Str) Bool)
